@@ -24,12 +24,24 @@ def TokInv (t : Token) : Prop := t.val.length = t.len ∧ t.len ≤ 31
 
 /-- a class byte assigned to a token of `len` bytes: no token (0) or a documented class; a function
 name has at least two bytes (`fold` reads `val[1]` of an `f` token) -/
-def CatV (cat : UInt8) (len : Nat) : Prop := (cat = 0 ∨ isClassU8 cat = true) ∧ (cat = 102 → 2 ≤ len)
+def CatV (cat : UInt8) (len : Nat) : Prop :=
+  (cat = 0 ∨ isClassU8 cat = true) ∧ (cat = 102 → 2 ≤ len) ∧ (cat = 99 → 1 ≤ len)
 def CatOK (t : Token) : Prop := CatV t.cat t.len
-/-- a literal class other than `f` -/
-abbrev CatLit (cat : UInt8) : Prop := (cat = 0 ∨ isClassU8 cat = true) ∧ cat ≠ 102
+/-- a literal class other than `f` (function name: two bytes needed) and `c` (comment: non-empty) -/
+abbrev CatLit (cat : UInt8) : Prop := (cat = 0 ∨ isClassU8 cat = true) ∧ cat ≠ 102 ∧ cat ≠ 99
 
-theorem catLit_ok {cat : UInt8} {len : Nat} (h : CatLit cat) : CatV cat len := ⟨h.1, fun h' => absurd h' h.2⟩
+theorem catLit_ok {cat : UInt8} {len : Nat} (h : CatLit cat) : CatV cat len :=
+  ⟨h.1, fun h' => absurd h' h.2.1, fun h' => absurd h' h.2.2⟩
+
+/-- a comment class on a non-empty token -/
+theorem catComment_ok {len : Nat} (h : 1 ≤ len) : CatV 99 len :=
+  ⟨Or.inr (by decide), (fun h' => absurd h' (by decide)), fun _ => h⟩
+
+theorem clip_pos {n : Nat} (h : 1 ≤ n) : 1 ≤ clip n := by
+  unfold clip tokenSize; simp only [Gen.tokenSize]; by_cases h' : n < 32 <;> simp [h'] <;> omega
+
+theorem clip_two {n : Nat} (h : 2 ≤ n) : 2 ≤ clip n := by
+  unfold clip tokenSize; simp only [Gen.tokenSize]; by_cases h' : n < 32 <;> simp [h'] <;> omega
 
 macro "cat_lit" : tactic => `(tactic| first | exact catLit_ok (by decide) | assumption)
 
@@ -57,7 +69,7 @@ theorem assign_lex (t : Token) (cat : UInt8) (pos length : Nat) (rest : Bytes) (
 
 theorem parseWhite_ok (rest : Bytes) (h : rest ≠ []) : Lexes rest (parseWhite rest) := by
   have : 1 ≤ rest.length := by cases rest with | nil => exact absurd rfl h | cons _ _ => simp
-  exact ⟨_, rfl, by simp, by simpa using this, ⟨rfl, by simp⟩, by simp, by simp, ⟨Or.inl rfl, fun h => by cases h⟩⟩
+  exact ⟨_, rfl, by simp, by simpa using this, ⟨rfl, by simp⟩, by simp, by simp, ⟨Or.inl rfl, (fun h => absurd h (by decide)), (fun h => absurd h (by decide))⟩⟩
 
 theorem clip_one : clip 1 = 1 := by decide
 
@@ -98,7 +110,7 @@ theorem const_byte_ok (cat c : UInt8) (rest : Bytes) (hc : rest[0]? = some c) (e
   | nil => simp at hl
   | cons x xs => simp at hc; simp [hc]
 
-theorem parseEolComment_ok (rest : Bytes) (h : rest ≠ []) (extra : Lex → Lex)
+theorem parseEolComment_ok (rest : Bytes) (h : rest ≠ []) (hnl : rest[0]? ≠ some 10) (extra : Lex → Lex)
     (he : ∀ r, (extra r).tok = r.tok ∧ (extra r).next = r.next) :
     Lexes rest (do let r ← parseEolComment rest; return extra r) := by
   have hl : 1 ≤ rest.length := by cases rest with | nil => exact absurd rfl h | cons _ _ => simp
@@ -109,15 +121,20 @@ theorem parseEolComment_ok (rest : Bytes) (h : rest ≠ []) (extra : Lex → Lex
     rw [assign_ok _ _ _ _ _ (clip_le _)]
     simp only []
     obtain ⟨e1, e2⟩ := he { tok := { cat := 99, pos := 0, len := clip rest.length, val := rest.take (clip rest.length) }, next := rest.length }
-    refine ⟨_, rfl, by rw [e2]; exact hl, by rw [e2]; simp, by rw [e1]; exact ⟨by have := clip_le rest.length; simp; omega, clip_le_31 _⟩, by rw [e1, e2]; simp; exact clip_le _, by rw [e1]; simp, by rw [e1]; exact catLit_ok (cat := 99) (by decide)⟩
+    refine ⟨_, rfl, by rw [e2]; exact hl, by rw [e2]; simp, by rw [e1]; exact ⟨by have := clip_le rest.length; simp; omega, clip_le_31 _⟩, by rw [e1, e2]; simp; exact clip_le _, by rw [e1]; simp, by rw [e1]; exact catComment_ok (clip_pos hl)⟩
   | some i =>
     have hlt := indexByte_lt hi
+    have hi1 : 1 ≤ i := by
+      rcases Nat.eq_zero_or_pos i with h0 | h0
+      · subst h0
+        exact absurd ((indexByte_some_iff _ _ _).mp hi).1 hnl
+      · exact h0
     simp only [bind, Except.bind, pure, Except.pure]
     rw [assign_ok _ _ _ _ _ (by have := clip_le i; omega)]
     simp only []
     obtain ⟨e1, e2⟩ := he { tok := { cat := 99, pos := 0, len := clip i, val := rest.take (clip i) }, next := i + 1 }
     have := clip_le i
-    refine ⟨_, rfl, by rw [e2]; simp, by rw [e2]; simp; omega, by rw [e1]; exact ⟨by simp; omega, clip_le_31 _⟩, by rw [e1, e2]; simp; omega, by rw [e1]; simp, by rw [e1]; exact catLit_ok (cat := 99) (by decide)⟩
+    refine ⟨_, rfl, by rw [e2]; simp, by rw [e2]; simp; omega, by rw [e1]; exact ⟨by simp; omega, clip_le_31 _⟩, by rw [e1, e2]; simp; omega, by rw [e1]; simp, by rw [e1]; exact catComment_ok (clip_pos hi1)⟩
 
 set_option maxRecDepth 100000 in
 /-- table fact: no key is empty, so the empty word is never a keyword -/
@@ -148,10 +165,10 @@ theorem splitLoop_ok (rest : Bytes) (t : Token) (ht : t.val.length = t.len) (hl 
             have hci : clip i = i := clip_of_lt (by omega)
             have hw : ((t.val.drop 0).take (i - 0)).length = i := by simp; omega
             refine ⟨_, rfl, by simp; omega, by simp; omega, ⟨by simp [hci]; omega, by simp; exact clip_le_31 _⟩, by simp [hci], by simp, ?_⟩
-            rcases searchKeyword_cases ((t.val.drop 0).take (i - 0)) with h0 | ⟨hcl, hf, _⟩
+            rcases searchKeyword_cases ((t.val.drop 0).take (i - 0)) with h0 | ⟨hcl, hf, hw1⟩
             · simp only [List.drop_zero, Nat.sub_zero] at h0
               simp [h0] at hch
-            · exact ⟨Or.inr hcl, fun h102 => by have := hf h102; rw [hw] at this; show 2 ≤ clip i; omega⟩
+            · exact ⟨Or.inr hcl, (fun h102 => by have := hf h102; rw [hw] at this; show 2 ≤ clip i; omega), (fun _ => by rw [hw] at hw1; show 1 ≤ clip i; omega)⟩
         · exact ih (i + 1)
       · exact ih (i + 1)
     · simp only [hi, ↓reduceIte]
@@ -192,11 +209,11 @@ theorem parseWord_ok (rest : Bytes) (c : UInt8) (h0 : rest[0]? = some c) (hc : n
           simp [List.length_take, hc32]; omega
         show CatV (if (searchKeyword (((rest.take (clip length)).drop 0).take (length - 0)) == 0) = true then 110
                    else searchKeyword (((rest.take (clip length)).drop 0).take (length - 0))) (clip length)
-        rcases searchKeyword_cases (((rest.take (clip length)).drop 0).take (length - 0)) with h0 | ⟨hcl, hf, _⟩
+        rcases searchKeyword_cases (((rest.take (clip length)).drop 0).take (length - 0)) with h0 | ⟨hcl, hf, hw1⟩
         · rw [h0]; exact catLit_ok (cat := 110) (by decide)
         · split
           · exact catLit_ok (cat := 110) (by decide)
-          · exact ⟨Or.inr hcl, fun h102 => by have := hf h102; rw [hw] at this; omega⟩
+          · exact ⟨Or.inr hcl, (fun h102 => by have := hf h102; rw [hw] at this; omega), (fun _ => by rw [hw] at hw1; omega)⟩
     · simp only [hlt, ↓reduceIte]
       refine ⟨_, rfl, h1, h2, ⟨?_, clip_le_31 length⟩, ?_, ?_, catLit_ok (cat := 110) (by decide)⟩
       · show (rest.take (clip length)).length = clip length
@@ -285,7 +302,7 @@ theorem parseTick_ok (t : Token) (rest : Bytes) (h : rest ≠ []) : Lexes rest (
     have hw : ((r.tok.val.drop 0).take (r.tok.len - 0)).length = r.tok.len := by simp; omega
     rcases searchKeyword_cases ((r.tok.val.drop 0).take (r.tok.len - 0)) with h0 | ⟨_, hf, _⟩
     · rw [h0] at h102; simp at h102
-    · exact ⟨Or.inr (by decide), fun _ => by have := hf (by simpa using h102); omega⟩
+    · exact ⟨Or.inr (by decide), (fun _ => by have := hf (by simpa using h102); omega), (fun h => absurd h (by decide))⟩
   · exact catLit_ok (cat := 110) (by decide)
 
 theorem parseEString_ok (rest : Bytes) (c : UInt8) (h0 : rest[0]? = some c) (hc : notWordAccept c = true) :
@@ -341,13 +358,13 @@ theorem Lexes.of_eq {rest : Bytes} {x y : M Lex} (h : Lexes rest x) (e : y = x) 
 theorem parseHash_ok (flags : Nat) (rest : Bytes) (h0 : rest[0]? = some 35) : Lexes rest (parseHash flags rest) := by
   unfold parseHash
   split
-  · have := parseEolComment_ok rest (ne_nil_of_first h0) (fun r => { r with hash := 2 }) (fun r => ⟨rfl, rfl⟩)
+  · have := parseEolComment_ok rest (ne_nil_of_first h0) (by rw [h0]; decide) (fun r => { r with hash := 2 }) (fun r => ⟨rfl, rfl⟩)
     exact this
   · exact const_byte_ok 111 35 rest h0 (fun r => { r with hash := 1 }) (fun r => ⟨rfl, rfl⟩)
 
 theorem parseDash_ok (flags : Nat) (rest : Bytes) (h0 : rest[0]? = some 45) : Lexes rest (parseDash flags rest) := by
   have hne := ne_nil_of_first h0
-  have eol := parseEolComment_ok rest hne (fun r => r) (fun r => ⟨rfl, rfl⟩)
+  have eol := parseEolComment_ok rest hne (by rw [h0]; decide) (fun r => r) (fun r => ⟨rfl, rfl⟩)
   have eol' : Lexes rest (parseEolComment rest) := by
     obtain ⟨r, hr, hok⟩ := eol
     cases hp : parseEolComment rest with
@@ -355,7 +372,7 @@ theorem parseDash_ok (flags : Nat) (rest : Bytes) (h0 : rest[0]? = some 45) : Le
     | ok v =>
       simp only [hp, bind, Except.bind, pure, Except.pure, Except.ok.injEq] at hr
       exact ⟨v, rfl, hr ▸ hok⟩
-  have eolx := parseEolComment_ok rest hne (fun r => { r with ddx := 1 }) (fun r => ⟨rfl, rfl⟩)
+  have eolx := parseEolComment_ok rest hne (by rw [h0]; decide) (fun r => { r with ddx := 1 }) (fun r => ⟨rfl, rfl⟩)
   have dash := const_byte_ok 111 45 rest h0 (fun r => r) (fun r => ⟨rfl, rfl⟩)
   unfold parseDash
   simp only [g, andM, toBool, byteIs, bind, Except.bind, pure, Except.pure]
@@ -447,14 +464,17 @@ theorem parseSlash_ok (rest : Bytes) (h : rest ≠ []) : Lexes rest (parseSlash 
       cases hi : indexOf (rest.drop 2) [42, 47] with
       | none =>
         simp only []
-        have fin : ∀ cat : UInt8, CatLit cat → Lexes rest (do return { tok := ← assign {} cat 0 rest.length rest, next := rest.length }) :=
-          fun cat hcl => tok0_ok cat rest.length rest.length rest (Nat.le_refl _) hl (Nat.le_refl _) (clip_le _) (catLit_ok hcl)
+        have fin : ∀ cat : UInt8, (cat = 88 ∨ cat = 99) → Lexes rest (do return { tok := ← assign {} cat 0 rest.length rest, next := rest.length }) :=
+          fun cat hcl => tok0_ok cat rest.length rest.length rest (Nat.le_refl _) hl (Nat.le_refl _) (clip_le _)
+            (by rcases hcl with rfl | rfl
+                · exact catLit_ok (by decide)
+                · exact catComment_ok (clip_pos hl))
         by_cases h2 : 2 < rest.length
         · simp only [h2, ↓reduceIte, at'_ok h2]
-          have := fin (if (rest[2] == 33) = true then 88 else 99) (by split <;> decide)
+          have := fin (if (rest[2] == 33) = true then 88 else 99) (by split <;> simp)
           simpa [bind, Except.bind, pure, Except.pure] using this
         · simp only [h2, ↓reduceIte]
-          have := fin 99 (by decide)
+          have := fin 99 (Or.inr rfl)
           simpa [bind, Except.bind, pure, Except.pure] using this
       | some i =>
         have hle := indexOf_le hi
@@ -466,13 +486,16 @@ theorem parseSlash_ok (rest : Bytes) (h : rest ≠ []) : Lexes rest (parseSlash 
         have h2 : 2 < rest.length := by omega
         simp only []
         rw [slice_ok rest 2 (2 + i + 1) (by omega) (by omega)]
-        have fin : ∀ cat : UInt8, CatLit cat → Lexes rest (do return { tok := ← assign {} cat 0 (2 + i + 2) rest, next := 2 + i + 2 }) :=
-          fun cat hcl => tok0_ok cat (2 + i + 2) (2 + i + 2) rest (by omega) (by omega) (by omega) (clip_le _) (catLit_ok hcl)
+        have fin : ∀ cat : UInt8, (cat = 88 ∨ cat = 99) → Lexes rest (do return { tok := ← assign {} cat 0 (2 + i + 2) rest, next := 2 + i + 2 }) :=
+          fun cat hcl => tok0_ok cat (2 + i + 2) (2 + i + 2) rest (by omega) (by omega) (by omega) (clip_le _)
+            (by rcases hcl with rfl | rfl
+                · exact catLit_ok (by decide)
+                · exact catComment_ok (clip_pos (by omega)))
         by_cases hcn : contains ((rest.drop 2).take (2 + i + 1 - 2)) [47, 42] = true
         · simp only [hcn, ↓reduceIte]
-          simpa [bind, Except.bind, pure, Except.pure] using fin 88 (by decide)
+          simpa [bind, Except.bind, pure, Except.pure] using fin 88 (Or.inl rfl)
         · simp only [hcn, Bool.false_eq_true, ↓reduceIte, h2, at'_ok h2]
-          have := fin (if (rest[2] == 33) = true then 88 else 99) (by split <;> decide)
+          have := fin (if (rest[2] == 33) = true then 88 else 99) (by split <;> simp)
           simpa [bind, Except.bind, pure, Except.pure] using this
     · exact parseOperator1_ok rest h
 
@@ -498,7 +521,7 @@ theorem parseOperator2_ok (rest : Bytes) (h : rest ≠ []) : Lexes rest (parseOp
         refine tok0_ok _ 2 2 rest h2 (by omega) h2 (clip_le _) ?_
         rcases searchKeyword_cases ((rest.drop 0).take (2 - 0)) with h0 | ⟨hcl, _, _⟩
         · rw [h0] at hsk; simp at hsk
-        · exact ⟨Or.inr hcl, fun _ => by decide⟩
+        · exact ⟨Or.inr hcl, (fun _ => by decide), (fun _ => by decide)⟩
       · split
         · exact one_byte_ok 58 rest h
         · exact parseOperator1_ok rest h
@@ -922,7 +945,7 @@ def dispatchFact (c : UInt8) : Bool :=
   | .word | .ustring | .qstring | .nqstring | .xstring | .bstring | .estring => notWordAccept c
   | .number => isDigit c || c == 46
   | .unknown => false
-  | .byte => isClassU8 c && c != 102
+  | .byte => isClassU8 c && c != 102 && c != 99
   | _ => true
 
 /-- table fact, re-checked against the regenerated dispatch table on every build -/
@@ -947,7 +970,7 @@ theorem runP_ok (flags : Nat) (rest : Bytes) (c : UInt8) (h0 : rest[0]? = some c
   case byte =>
     have hcl : CatLit c := by
       simp only [Bool.and_eq_true, bne_iff_ne, ne_eq] at hf
-      exact ⟨Or.inr hf.1, hf.2⟩
+      exact ⟨Or.inr hf.1.1, hf.1.2, hf.2⟩
     exact parseByte_ok rest c h0 hcl
   case hash => have : c = 35 := by simpa using hf
                subst this; exact parseHash_ok flags rest h0
